@@ -223,8 +223,14 @@ class Cluster(Driver):
                 goal = {'OPERATION'}
                 bad = {i: st for i, st in states.items() if st not in goal}
                 if bad:
-                    parked = sorted(set(bad.values()))
-                    return {'clause': 'not-back-in-operation', 'signature': 'C08:parked:' + '+'.join(parked),
+                    # signature: who is where (role=state), so that a known finding stays narrow
+                    agreed = len(vals) == 1 and '' not in vals
+                    roles = set()
+                    for i, st in states.items():
+                        role = 'master' if agreed and w.idents[i] in vals else ('slave' if agreed else 'undecided')
+                        if role == 'master' or st not in goal:
+                            roles.add(f'{role}={st}')
+                    return {'clause': 'not-back-in-operation', 'signature': 'C08:parked:' + '+'.join(sorted(roles)),
                             'group': g, 'states': states, 'masters': {str(k): v for k, v in masters.items()}}
                 for i, s in zip(g, members):
                     sm = s.rpc.get_supvisors_state()
